@@ -428,7 +428,7 @@ def _check_process(ctx, m, fn, q, kind, fields, vname, vis):
         want_kw = KW.get(fld)
         if fld == 'nodelist':
             want_kw = 'visited_results_body' if kind == 'environment' else 'visited_results_nodelist'
-        val = kwarg(vc, want_kw)
+        val = _kw_value(fn, vc, want_kw)
         ok = False
         if val is not None:
             if result_of.get(id(val)) == fld:
@@ -450,11 +450,48 @@ def _check_process(ctx, m, fn, q, kind, fields, vname, vis):
                    'the results of the children in %s do not reach %s(..., %s=...): the parent '
                    'gets missing or foreign child results' % (fld, vname, want_kw),
                    construct='%s: %s=' % (label, want_kw))
-    extra = [k.arg for k in vc.keywords if k.arg and k.arg.startswith('visited_results_')]
+    extra = [k.arg for k in vc.keywords if k.arg and k.arg.startswith('visited_results_')] + [
+        k_ for k_ in _starred_keys(fn, vc) if k_.startswith('visited_results_')]
     ctx.decide('V2', len(extra) == len(fields), m, vc,
                '%d result keyword(s) for %d child-bearing field(s)' % (len(extra), len(fields)),
                'visit call passes result keywords %s for fields %s' % (extra, fields),
                construct=label + ': result keywords', trivial=True)
+
+
+def _starred_dicts(fn, call):
+    """{key: value expression} for every `**name` argument of `call` whose name is a local dict of `fn` built by a
+    display / dict(k=v) and `name['k'] = v` stores (later stores win)"""
+    out = {}
+    for k in call.keywords:
+        if k.arg is not None or not isinstance(k.value, ast.Name):
+            continue
+        nm = k.value.id
+        for s_ in sorted([x for x in iter_own(fn) if isinstance(x, ast.Assign)], key=_pos):
+            for t_ in s_.targets:
+                if isinstance(t_, ast.Name) and t_.id == nm:
+                    if isinstance(s_.value, ast.Dict):
+                        for kk, vv in zip(s_.value.keys, s_.value.values):
+                            if isinstance(kk, ast.Constant):
+                                out[kk.value] = vv
+                    elif isinstance(s_.value, ast.Call) and call_name(s_.value) == 'dict':
+                        for kw_ in s_.value.keywords:
+                            if kw_.arg:
+                                out[kw_.arg] = kw_.value
+                elif isinstance(t_, ast.Subscript) and isinstance(t_.value, ast.Name) and t_.value.id == nm and \
+                        isinstance(t_.slice, ast.Constant):
+                    out[t_.slice.value] = s_.value
+    return out
+
+
+def _starred_keys(fn, call):
+    return list(_starred_dicts(fn, call))
+
+
+def _kw_value(fn, call, name):
+    v = kwarg(call, name)
+    if v is not None:
+        return v
+    return _starred_dicts(fn, call).get(name)
 
 
 def _inside(x, fn):
